@@ -18,6 +18,7 @@
 #include <algorithm>
 #include <cstring>
 #include <cstdlib>
+#include <gmpxx.h>
 
 namespace ax {
 
@@ -262,81 +263,147 @@ inline bool fm_feasible(const std::vector<Row>& rows, const std::vector<int>& el
 }
 
 
-// ---- two-phase dense simplex (Bland's rule); same contract as fm_feasible ---------------------------------
-typedef std::vector<std::vector<double>> Tab;
-inline int simplex_min(Tab& T, std::vector<int>& basis, int ncols, const std::vector<char>& allowed, double eps = 1e-9) {
+// ---- two-phase dense simplex (Bland's rule) in exact rational arithmetic; same contract as fm_feasible --------
+// Every double is converted exactly to a rational, so the verdict has no rounding error at all (a floating-point
+// tableau returned wrong verdicts on rows mixing coefficients 1 and 1e6, e.g. PL end segments extended to +-1e6).
+typedef mpq_class Num;
+typedef std::vector<std::vector<Num>> Tab;
+inline int simplex_min(Tab& T, std::vector<int>& basis, int ncols, const std::vector<char>& allowed) {
   const int m = (int)T.size() - 1;                      // returns 0 = optimal, 1 = unbounded
   for (int it = 0; it < 20000; ++it) {
     int e = -1;
-    for (int j = 0; j < ncols; ++j) if (allowed[j] && T[m][j] < -eps) { e = j; break; }
+    for (int j = 0; j < ncols; ++j) if (allowed[j] && sgn(T[m][j]) < 0) { e = j; break; }
     if (e < 0) return 0;
-    int lr = -1; double best = 0;
+    int lr = -1; Num best;
     for (int i = 0; i < m; ++i) {
-      double a = T[i][e];
-      if (a > eps) {
-        double ratio = T[i].back() / a;
-        if (lr < 0 || ratio < best - 1e-12 || (std::fabs(ratio - best) <= 1e-12 && basis[i] < basis[lr])) { best = ratio; lr = i; }
+      if (sgn(T[i][e]) > 0) {
+        Num ratio = T[i].back() / T[i][e];
+        if (lr < 0 || ratio < best || (ratio == best && basis[i] < basis[lr])) { best = ratio; lr = i; }
       }
     }
     if (lr < 0) return 1;
-    double pv = T[lr][e]; for (auto& x : T[lr]) x /= pv;
-    for (int i = 0; i <= m; ++i) if (i != lr) { double f = T[i][e]; if (f != 0.0) for (size_t j = 0; j < T[i].size(); ++j) T[i][j] -= f * T[lr][j]; }
+    Num pv = T[lr][e]; for (auto& x : T[lr]) if (sgn(x) != 0) x /= pv;
+    for (int i = 0; i <= m; ++i) if (i != lr && sgn(T[i][e]) != 0) {
+      Num f = T[i][e];
+      for (size_t j = 0; j < T[i].size(); ++j) if (sgn(T[lr][j]) != 0) T[i][j] -= f * T[lr][j];
+    }
     basis[lr] = e;
   }
   throw Undecided("simplex iteration limit");
 }
 
-inline bool lp_feasible(const std::vector<Row>& rows, const std::vector<int>& elim, const Co* oc, double o0, double& lo, double& hi) {
-  std::vector<int> vs(elim.begin(), elim.end()); std::sort(vs.begin(), vs.end()); vs.erase(std::unique(vs.begin(), vs.end()), vs.end());
-  std::map<int, int> idx; for (size_t k = 0; k < vs.size(); ++k) idx[vs[k]] = (int)k;
-  const int n = (int)vs.size();
-  std::vector<std::pair<std::vector<double>, double>> ineq;
+// Steps: (1) equality rows define a variable: substitute it (exact Gaussian step); (2) single-variable rows become
+// bounds, variables are shifted to x' >= 0; (3) two-phase dense simplex with Bland's rule.  The objective is the
+// variable z (index ZV) of the row oc.x - z = -o0.
+inline bool lp_feasible_tol(const std::vector<Row>& rows, const std::vector<int>& elim, const Co* oc, double o0, double& lo, double& hi, double tol) {
+  const int ZV = 1000000000;                         // sorts after every model variable
+  typedef std::map<int, Num> QCo;
+  struct QRow { QCo co; bool hl, hu; Num lb, ub; };
+  const Num FT(tol);
+  std::vector<QRow> work;
   for (auto& r : rows) {
-    std::vector<double> a(n, 0.0);
-    for (auto& kv : r.co) { auto it = idx.find(kv.first); if (it == idx.end()) throw Undecided("LP residual variables"); a[it->second] += kv.second; }
-    if (r.ub < AINF) ineq.push_back({a, r.ub + 1e-9 * (1 + std::fabs(r.ub))});
-    if (r.lb > -AINF) { std::vector<double> na(a); for (auto& x : na) x = -x; ineq.push_back({na, -r.lb + 1e-9 * (1 + std::fabs(r.lb))}); }
+    QRow q; for (auto& kv : r.co) if (kv.second != 0.0) q.co[kv.first] = Num(kv.second);
+    q.hl = r.lb > -AINF; q.hu = r.ub < AINF; if (q.hl) q.lb = Num(r.lb); if (q.hu) q.ub = Num(r.ub);
+    work.push_back(q);
   }
-  const int m = (int)ineq.size(), ncols = 2 * n + 2 * m;
-  Tab T; std::vector<int> basis;
+  std::set<int> freev(elim.begin(), elim.end());
+  if (oc) { QRow q; for (auto& kv : *oc) if (kv.second != 0.0) q.co[kv.first] = Num(kv.second); q.co[ZV] = Num(-1);
+    q.hl = q.hu = true; q.lb = q.ub = Num(-o0); work.push_back(q); freev.insert(ZV); }
+  for (auto& q : work) for (auto& kv : q.co) if (!freev.count(kv.first)) throw Undecided("LP residual variables");
+  if (tol == 0.0) {
+    for (bool progress = true; progress;) {
+      progress = false;
+      for (size_t ri = 0; ri < work.size(); ++ri) {
+        if (!(work[ri].hl && work[ri].hu && work[ri].lb == work[ri].ub)) continue;
+        int v = 0; bool have = false;
+        for (auto& kv : work[ri].co) if (kv.first != ZV) { v = kv.first; have = true; break; }   // smallest index
+        if (!have) continue;
+        QRow r = work[ri]; Num c = r.co[v];
+        work.erase(work.begin() + ri);
+        for (auto& q : work) {
+          auto it = q.co.find(v); if (it == q.co.end()) continue;
+          Num f = it->second / c; q.co.erase(it);
+          for (auto& kv : r.co) if (kv.first != v) { Num nv = q.co[kv.first] - f * kv.second; if (sgn(nv) != 0) q.co[kv.first] = nv; else q.co.erase(kv.first); }
+          if (q.hl) q.lb -= f * r.lb; if (q.hu) q.ub -= f * r.lb;
+        }
+        freev.erase(v); progress = true; break;
+      }
+    }
+  }
+  std::map<int, Num> L, U; std::vector<QRow> gen;
+  for (auto& q : work) {
+    if (q.co.empty()) { if ((q.hu && sgn(q.ub + FT) < 0) || (q.hl && sgn(q.lb - FT) > 0)) return false; continue; }
+    if (q.co.size() == 1) {
+      int v = q.co.begin()->first; Num c = q.co.begin()->second; bool pos = sgn(c) > 0;
+      bool hlo = pos ? q.hl : q.hu, hhi = pos ? q.hu : q.hl;
+      if (hlo) { Num x = (pos ? q.lb : q.ub) / c; if (!L.count(v) || x > L[v]) L[v] = x; }
+      if (hhi) { Num x = (pos ? q.ub : q.lb) / c; if (!U.count(v) || x < U[v]) U[v] = x; }
+    } else gen.push_back(q);
+  }
+  for (auto& kv : L) if (U.count(kv.first) && kv.second - FT > U[kv.first] + FT) return false;
+  std::vector<int> vs(freev.begin(), freev.end());           // ascending; ZV last
+  std::map<int, std::pair<int, int>> cols; int ncol = 0;     // kind 0 = lo-shift, 1 = up-shift, 2 = free (two columns)
+  for (int v : vs) { if (L.count(v)) { cols[v] = {0, ncol}; ncol += 1; } else if (U.count(v)) { cols[v] = {1, ncol}; ncol += 1; } else { cols[v] = {2, ncol}; ncol += 2; } }
+  std::vector<std::pair<std::vector<Num>, Num>> ineq;
+  auto add = [&](const QCo& co, Num b, int sg) {
+    std::vector<Num> a(ncol);
+    for (auto& kv : co) { Num c = sg > 0 ? kv.second : Num(-kv.second); auto cj = cols[kv.first]; int j = cj.second;
+      if (cj.first == 0) { a[j] += c; b -= c * (L[kv.first] - FT); }
+      else if (cj.first == 1) { a[j] -= c; b -= c * (U[kv.first] + FT); }
+      else { a[j] += c; a[j + 1] -= c; } }
+    ineq.push_back({a, b});
+  };
+  for (auto& q : gen) { if (q.hu) add(q.co, q.ub + FT, 1); if (q.hl) add(q.co, -q.lb + FT, -1); }
+  for (int v : vs) { auto cj = cols[v]; if (cj.first == 0 && U.count(v)) { std::vector<Num> a(ncol); a[cj.second] = 1; ineq.push_back({a, (U[v] + FT) - (L[v] - FT)}); } }
+  const int m = (int)ineq.size();
+  int nart = 0; for (auto& q : ineq) if (sgn(q.second) < 0) ++nart;
+  const int width = ncol + m + nart;
+  Tab T; std::vector<int> basis; int k = 0;
   for (int i = 0; i < m; ++i) {
-    std::vector<double> r(ncols + 1, 0.0);
-    for (int j = 0; j < n; ++j) { r[j] = ineq[i].first[j]; r[n + j] = -ineq[i].first[j]; }
-    r[ncols] = ineq[i].second; r[2 * n + i] = 1.0;
-    if (ineq[i].second < 0) for (auto& x : r) x = -x;
-    r[2 * n + m + i] = 1.0;
-    T.push_back(r); basis.push_back(2 * n + m + i);
+    std::vector<Num> r(width + 1);
+    for (int j = 0; j < ncol; ++j) r[j] = ineq[i].first[j];
+    r[width] = ineq[i].second; r[ncol + i] = 1;
+    if (sgn(ineq[i].second) < 0) { for (auto& x : r) x = -x; r[ncol + m + k] = 1; basis.push_back(ncol + m + k); ++k; }
+    else basis.push_back(ncol + i);
+    T.push_back(r);
   }
-  std::vector<double> cost(ncols + 1, 0.0);
-  for (int i = 0; i < m; ++i) for (int j = 0; j <= ncols; ++j) if (j < 2 * n + m || j == ncols) cost[j] -= T[i][j];
-  T.push_back(cost);
-  std::vector<char> allowed(ncols, 1);
-  simplex_min(T, basis, ncols, allowed);
-  if (-T[m].back() > 1e-7) return false;
-  for (int j = 2 * n + m; j < ncols; ++j) allowed[j] = 0;
-  for (int i = 0; i < m; ++i) if (basis[i] >= 2 * n + m) {
-    for (int j = 0; j < 2 * n + m; ++j) if (std::fabs(T[i][j]) > 1e-9) {
-      double pv = T[i][j]; for (auto& x : T[i]) x /= pv;
-      for (int i2 = 0; i2 <= m; ++i2) if (i2 != i && T[i2][j] != 0.0) { double f = T[i2][j]; for (size_t q = 0; q < T[i2].size(); ++q) T[i2][q] -= f * T[i][q]; }
-      basis[i] = j; break;
+  std::vector<char> allowed(width, 1);
+  if (nart) {
+    std::vector<Num> cost(width + 1);
+    for (int i = 0; i < m; ++i) if (basis[i] >= ncol + m) for (int j = 0; j <= width; ++j) if (j < ncol + m || j == width) cost[j] -= T[i][j];
+    T.push_back(cost);
+    simplex_min(T, basis, width, allowed);
+    if (sgn(T[m].back()) != 0) return false;
+    T.pop_back();
+    for (int j = ncol + m; j < width; ++j) allowed[j] = 0;
+    for (int i = 0; i < m; ++i) if (basis[i] >= ncol + m) {
+      for (int j = 0; j < ncol + m; ++j) if (sgn(T[i][j]) != 0) {
+        Num pv = T[i][j]; for (auto& x : T[i]) x /= pv;
+        for (int i2 = 0; i2 < m; ++i2) if (i2 != i && sgn(T[i2][j]) != 0) { Num f = T[i2][j]; for (size_t q = 0; q < T[i2].size(); ++q) T[i2][q] -= f * T[i][q]; }
+        basis[i] = j; break;
+      }
     }
   }
   lo = -AINF; hi = AINF;
   if (!oc) return true;
-  double res[2];
+  auto cz = cols[ZV];
   for (int pass = 0; pass < 2; ++pass) {
-    double sgn = pass == 0 ? 1.0 : -1.0;
-    Tab T2(T.begin(), T.begin() + m); std::vector<int> b2 = basis;
-    std::vector<double> c(ncols + 1, 0.0);
-    for (auto& kv : *oc) { auto it = idx.find(kv.first); if (it == idx.end()) throw Undecided("LP residual variables"); c[it->second] += sgn * kv.second; c[n + it->second] -= sgn * kv.second; }
-    for (int i = 0; i < m; ++i) { double f = c[b2[i]]; if (f != 0.0) for (size_t q = 0; q < c.size(); ++q) c[q] -= f * T2[i][q]; }
+    int sg = pass == 0 ? 1 : -1;
+    Tab T2 = T; std::vector<int> b2 = basis;
+    std::vector<Num> c(width + 1); Num off = 0;
+    if (cz.first == 0) { c[cz.second] = sg; off = L[ZV]; } else if (cz.first == 1) { c[cz.second] = -sg; off = U[ZV]; } else { c[cz.second] = sg; c[cz.second + 1] = -sg; }
+    for (int i = 0; i < m; ++i) if (sgn(c[b2[i]]) != 0) { Num f = c[b2[i]]; for (size_t q = 0; q < c.size(); ++q) c[q] -= f * T2[i][q]; }
     T2.push_back(c);
-    int st = simplex_min(T2, b2, ncols, allowed);
-    res[pass] = st == 1 ? -AINF : -T2[m].back();
+    int st = simplex_min(T2, b2, width, allowed);
+    if (st == 0) { Num val = Num(sg) * Num(-T2[m].back()) + off; if (pass == 0) lo = val.get_d(); else hi = val.get_d(); }
   }
-  lo = res[0] > -AINF ? res[0] + o0 : -AINF;
-  hi = res[1] > -AINF ? -res[1] + o0 : AINF;
   return true;
+}
+
+// exact rows first; only if they have no solution, every right-hand side is relaxed by TOL (noise in the data)
+inline bool lp_feasible(const std::vector<Row>& rows, const std::vector<int>& elim, const Co* oc, double o0, double& lo, double& hi) {
+  if (lp_feasible_tol(rows, elim, oc, o0, lo, hi, 0.0)) return true;
+  return lp_feasible_tol(rows, elim, oc, o0, lo, hi, TOL);
 }
 
 struct LPFMDisagree : std::runtime_error { explicit LPFMDisagree(const std::string& s) : std::runtime_error(s) {} };
